@@ -35,7 +35,8 @@ TEXT["C18"] = dict(
                "with every position/count argument (in range, just beyond, npos-1, npos) for every "
                "StringView query that std::string_view also offers; value, sign, copied bytes and "
                "exception kind must agree. A terminate handler attributes noexcept violations to the "
-               "call in progress. Random longer strings add depth. Exhaustive for the stated small space, "
+               "call in progress. Random longer strings add depth; views sharing storage (same data(), nested, "
+               "overlapping) and views without storage (data() == nullptr) are compared as well. Exhaustive for the stated small space, "
                "sampled beyond it.",
     level_note="trusts libstdc++'s std::string_view as the reference where its behaviour is defined; "
                "undefined std cases (remove_prefix beyond size, front() on empty) are not driven")
@@ -48,7 +49,9 @@ TEXT["C15"] = dict(
                "elements (so a duplicated/lost element is seen even when keys are in order). A recording "
                "compare-exchange functor checks that the comparator sequence is data-independent, which "
                "is what lets the zero-one result extend to all inputs. Random inputs of three element "
-               "types under several strict weak orders add the non-0/1 evidence.",
+               "types under several strict weak orders add the non-0/1 evidence. The dispatching entry points are "
+               "also driven through reverse, strided and deque iterators (objects outside the range must stay "
+               "untouched) and with one named comparator object that is used again after each call.",
     level_note="trusts the zero-one principle and the harness's order/permutation checks; CS_IfSwap is "
                "exercised as the conditional-swap policy (the only one tlx ships)")
 TEXT["C14"] = dict(
@@ -61,7 +64,8 @@ TEXT["C14"] = dict(
                "python hashlib from a log of (algorithm, message generator, digest) records; hex forms "
                "are checked against the raw bytes. SipHash: plain, SSE2 and dispatcher must agree at "
                "every buffer alignment for lengths 0..129, and the value is recomputed by an independent "
-               "SipHash-2-4 anchored on the paper's vectors. Exhaustive over lengths and split points, "
+               "SipHash-2-4 anchored on the paper's vectors; keys are handed over at every address offset 0..15. "
+               "A single process() call of >= 2^29 bytes is compared with ~1 MiB calls and hashlib. Exhaustive over lengths and split points, "
                "sampled over content, keys and multi-way partitions.",
     level_note="trusts hashlib/OpenSSL, the oracle's SipHash (self-tested on published vectors at every "
                "run) and the shared message generator (splitmix64) being identical in C++ and python -- "
@@ -73,7 +77,8 @@ TEXT["C09"] = dict(
     level_text="Random replace-the-winner histories (heavy ties, exhausted players, every k up to 17 and "
                "around 32/64, real keys equal to the padding sentinel) are replayed on all eight loser "
                "tree variants and the two size switches; each min_source() is checked against a linear "
-               "scan of a shadow array (liveness, minimality, stable tie-break). Exploration: held on "
+               "scan of a shadow array (liveness, minimality, stable tie-break). Players are registered in ascending, "
+               "reverse or shuffled order, and keys reach the tree from arrays or through one reused slot per player. Exploration: held on "
                "the histories generated.",
     level_note="trusts the O(k) shadow scan; unguarded variants are driven only inside their documented "
                "precondition")
@@ -98,8 +103,9 @@ TEXT["C08"] = dict(
                "multisequence_partition and selected by multisequence_selection and compared with the "
                "merge by (value, sequence, position): left size, order across the split, exact tie-break, "
                "selected value and offset. All tuples of up to 3 (thorough: 4) short sequences over three "
-               "values are enumerated; random tuples cover m up to 10, lengths around powers of two and "
-               "very unequal lengths, both orders, and a value type whose order is coarser than equality.",
+               "values are enumerated; random tuples cover m up to 64, lengths around powers of two and "
+               "very unequal lengths, both orders, a value type whose order is coarser than equality, six rank "
+               "types (signed/unsigned, 32/64 bit) and calls passing one variable as rank and as offset.",
     level_note="trusts the brute-force reference; sequences are non-empty as the property requires")
 TEXT["C01"] = dict(
     engine="differential",
@@ -253,7 +259,8 @@ TEXT["C07"] = dict(
                "both splitting strategies, three oversampling factors, all merge algorithms and both the forced and the "
                "natural parallel switch. Elements carry (sequence, position) and count assignments per destination "
                "object, so the monitor decides keys, stability, the per-input prefix property, the returned end, the "
-               "advanced inputs, writes beyond length and 'each position written exactly once'; TSan decides data races "
+               "advanced inputs, writes beyond length and 'each position written exactly once'; a heap-owning ledger element "
+               "makes every construction/assignment/destruction of the merge's temporaries visible; TSan decides data races "
                "on the real executions. Exploration: held on the cases and OS schedules observed.",
     level_note="trusts std::stable_sort as the reference and TSan/ASan reports; no controlled scheduler here - the merge "
                "threads do not synchronise with each other, so interleavings only matter through overlapping writes, which "
@@ -266,7 +273,8 @@ TEXT["C06"] = dict(
                "duplicate-heavy, sorted, reversed and random keys, 1..32 threads, both splitting strategies, three "
                "oversampling factors and both comparators. Stable sorts must equal std::stable_sort element by element; "
                "unstable ones must be sorted permutations. Heap-owning ledger elements make every temporary copy "
-               "visible: the number of live elements must be unchanged by the call, and ASan/LSan see reads of dead "
+               "visible: the number of live elements must be unchanged by the call, the comparator must never be called on "
+               "a moved-from (poisoned) element, and ASan/LSan see reads of dead "
                "storage and leaks; TSan watches real executions for races (the barriers' own interleavings are the "
                "subject of C11). Exploration: held on the cases and OS schedules observed.",
     level_note="trusts std::stable_sort as the reference and the sanitizers' reports; termination only as absence of a "
